@@ -221,7 +221,9 @@ theorem grantCore_cases {s : State} (h : TI s.graph s.ttl) (now req ent sec : Na
   have hfst : TI (s.checkAccess now req sec .admin).1.graph (s.checkAccess now req sec .admin).1.ttl := by
     rw [checkAccess_fst]; split
     · exact h
-    · exact (h.cleanup now).1
+    · split
+      · exact h
+      · exact (h.cleanup now).1
   show (_ ∧ _) ∨ _
   rcases guarded_cases s now req sec .admin (fun s : State =>
       if !s.exists sec then (s, .err .notFound)
@@ -376,8 +378,8 @@ theorem delegateApply_inv {s : State} (h : TI s.graph s.ttl) (now parent child :
 theorem delegate_inv {s : State} (h : TI s.graph s.ttl) (now parent child : Nat) (secs : List Nat) (l : Level)
     (ttl : Option Nat) :
     TI (s.delegate now parent child secs l ttl).1.graph (s.delegate now parent child secs l ttl).1.ttl := by
-  have h0 : TI (if parent = root || secs.isEmpty then s else s.cleanup now).graph
-      (if parent = root || secs.isEmpty then s else s.cleanup now).ttl := by
+  have h0 : TI (if parent = root || isNodeKey parent || secs.isEmpty then s else s.cleanup now).graph
+      (if parent = root || isNodeKey parent || secs.isEmpty then s else s.cleanup now).ttl := by
     split
     · exact h
     · exact (h.cleanup now).1
@@ -632,10 +634,19 @@ theorem set_same {s : State} {now req sec val size : Nat} (hr : req ≠ root) :
   split
   · exact Or.inl (Same.refl _)
   · split
-    · right
+    · have hfst : (s.checkAccess now req sec .write).1 = s ∨ (s.checkAccess now req sec .write).1 = s.cleanup now := by
+        rw [checkAccess_fst, if_neg hr]; split
+        · exact Or.inl rfl
+        · exact Or.inr rfl
       rcases guarded_cases s now req sec .write _ with ⟨e, h⟩ | ⟨_, h⟩
-      · rw [h, checkAccess_fst, if_neg hr]; exact Same.refl _
-      · rw [h, checkAccess_fst, if_neg hr]; exact ⟨rfl, rfl, rfl⟩
+      · rw [h]
+        rcases hfst with h1 | h1
+        · left; show Same (s.checkAccess now req sec .write).1 s; rw [h1]; exact Same.refl _
+        · right; show Same (s.checkAccess now req sec .write).1 (s.cleanup now); rw [h1]; exact Same.refl _
+      · rw [h]
+        rcases hfst with h1 | h1
+        · left; rw [h1]; exact ⟨rfl, rfl, rfl⟩
+        · right; rw [h1]; exact ⟨rfl, rfl, rfl⟩
     · exact Or.inl (Same.refl _)
 
 theorem set_cleanup_same {s : State} {now req sec val size : Nat} (hr : req ≠ root) :
@@ -674,6 +685,18 @@ theorem batchItems_justified {s0 : State} {now req : Nat} (hr : req ≠ root) :
     rcases List.mem_cons.mp hp with rfl | hp
     · exact (set_ok (respItem_done hd) hr).same hs
     · exact batchItems_justified hr rest _ ((set_cleanup_same hr).trans hs) p hp hd
+
+/-- every entry of a `batch_set` by a secret-node key is an error -/
+theorem batchItems_key {now req : Nat} (hk : isNodeKey req = true) :
+    ∀ (entries : List (Nat × Nat × Nat)) (s : State), ∀ i ∈ batchItems now req s entries, ∃ e, i = .err e
+  | [], _, i, hi => by simp [batchItems] at hi
+  | en :: rest, s, i, hi => by
+    rw [batchItems] at hi
+    obtain ⟨e, he⟩ := set_key s now req en.1 en.2.1 en.2.2 hk
+    rw [he] at hi
+    rcases List.mem_cons.mp hi with rfl | hi
+    · exact ⟨e, rfl⟩
+    · exact batchItems_key hk rest s i hi
 
 theorem mem_zip_map {α β : Type} (f : α → β) : ∀ (l : List α) (p : α × β), p ∈ l.zip (l.map f) → p.2 = f p.1
   | [], _, h => by simp at h
@@ -823,7 +846,7 @@ theorem delegateApply_subp {s : State} (h : SubP s) (now parent child : Nat) (se
 
 theorem delegate_subp {s : State} (h : SubP s) (now parent child : Nat) (secs : List Nat) (l : Level)
     (ttl : Option Nat) : SubP (s.delegate now parent child secs l ttl).1 := by
-  have h0 : SubP (if parent = root || secs.isEmpty then s else s.cleanup now) := by
+  have h0 : SubP (if parent = root || isNodeKey parent || secs.isEmpty then s else s.cleanup now) := by
     split
     · exact h
     · exact cleanup_subp h now
